@@ -83,9 +83,11 @@ Section Beam.
     bi_heap : rheap (b_res c);
     bi_nodup : NoDup (map cid (b_res c));
     bi_vis : forall x, In x (b_res c) -> In (cid x) (b_vis c);
-    bi_cd : forall x, In x (b_res c) -> cd x = cdf (cid x);
     bi_cvis : forall x, In x (b_cands c) -> In (cid x) (b_vis c)
   }.
+
+  (* every result carries the distance of its node *)
+  Definition bcd (c : bctx) : Prop := forall x, In x (b_res c) -> cd x = cdf (cid x).
 
   Lemma mem_In : forall x l, mem x l = true <-> In x l.
   Proof.
@@ -100,22 +102,33 @@ Section Beam.
     destruct (mem n (b_vis c)) eqn:Hm; auto.
     assert (Hnv : ~ In n (b_vis c)) by (rewrite <- mem_In; congruence).
     destruct (dlt (cdf n) (worst (b_res c)) || (Z.of_nat (length (b_res c)) <? ef)).
-    - apply IH. destruct Hc as [H1 H2 H3 H4 H5].
+    - apply IH. destruct Hc as [H1 H2 H3 H5].
       destruct (add_result_spec ef (C n (cdf n)) (b_res c) H1) as (A1 & A2 & A3 & _).
       constructor; cbn [b_res b_cands b_vis].
       + exact A1.
       + apply A3. cbn [map cid]. constructor; auto.
         intros Hin. apply in_map_iff in Hin. destruct Hin as [x [Hx1 Hx2]]. apply H3 in Hx2. congruence.
       + intros x Hx. destruct (A2 x Hx) as [->|Hx']; cbn [cid]; [left; auto | right; auto].
-      + intros x Hx. destruct (A2 x Hx) as [->|Hx']; cbn [cid cd]; auto.
       + intros x Hx.
         assert (In x (C n (cdf n) :: b_cands c)).
         { eapply Permutation_in; [symmetry; apply push_perm | exact Hx]. }
         destruct H as [<-|H]; cbn [cid]; [left; auto | right; auto].
-    - apply IH. destruct Hc as [H1 H2 H3 H4 H5].
+    - apply IH. destruct Hc as [H1 H2 H3 H5].
       constructor; cbn [b_res b_cands b_vis]; auto.
       + intros x Hx. right; auto.
       + intros x Hx. right; auto.
+  Qed.
+
+  Lemma beam_nbrs_cd : forall nbrs c, binv c -> bcd c -> bcd (beam_nbrs nbrs cdf ef c).
+  Proof.
+    induction nbrs as [|n t IH]; intros c Hc Hd; cbn [beam_nbrs]; auto.
+    destruct (mem n (b_vis c)) eqn:Hm; auto.
+    pose proof (beam_nbrs_inv [n] c Hc) as Hstep. cbn [beam_nbrs] in Hstep. rewrite Hm in Hstep.
+    destruct (dlt (cdf n) (worst (b_res c)) || (Z.of_nat (length (b_res c)) <? ef)).
+    - apply IH; [exact Hstep|].
+      destruct (add_result_spec ef (C n (cdf n)) (b_res c) (bi_heap _ Hc)) as (_ & A2 & _).
+      intros x Hx. cbn [b_res] in Hx. destruct (A2 x Hx) as [->|Hx']; cbn [cid cd]; auto.
+    - apply IH; [exact Hstep|]. exact Hd.
   Qed.
 
   Lemma beam_loop_inv : forall fuel c c', binv c -> beam_loop fuel gn cdf ef c = Some c' -> binv c'.
@@ -123,7 +136,7 @@ Section Beam.
     induction fuel as [|f IH]; intros c c' Hc Hl; cbn [beam_loop] in Hl; [discriminate|].
     destruct (pop le_min (b_cands c)) as [[cur rest]|] eqn:Ep.
     - assert (Hrest : binv (B rest (b_res c) (b_vis c))).
-      { destruct Hc as [H1 H2 H3 H4 H5].
+      { destruct Hc as [H1 H2 H3 H5].
         destruct (pop_spec le_min le_min_total le_min_trans _ _ _ Ep) as (P & _ & _).
         constructor; cbn [b_res b_cands b_vis]; auto.
         intros x Hx. apply H5. eapply Permutation_in; [symmetry; exact P | right; exact Hx]. }
@@ -133,18 +146,72 @@ Section Beam.
     - inversion Hl; subst; auto.
   Qed.
 
-  Lemma beam_init_inv : forall e, cd e = cdf (cid e) -> binv (beam_init ef e).
+  Lemma beam_loop_cd : forall fuel c c', binv c -> bcd c -> beam_loop fuel gn cdf ef c = Some c' -> bcd c'.
   Proof.
-    intros e He. unfold beam_init.
+    induction fuel as [|f IH]; intros c c' Hc Hd Hl; cbn [beam_loop] in Hl; [discriminate|].
+    destruct (pop le_min (b_cands c)) as [[cur rest]|] eqn:Ep; [|inversion Hl; subst; auto].
+    assert (Hrest : binv (B rest (b_res c) (b_vis c))).
+    { destruct Hc as [H1 H2 H3 H5].
+      destruct (pop_spec le_min le_min_total le_min_trans _ _ _ Ep) as (P & _ & _).
+      constructor; cbn [b_res b_cands b_vis]; auto.
+      intros x Hx. apply H5. eapply Permutation_in; [symmetry; exact P | right; exact Hx]. }
+    destruct (dlt (worst (b_res c)) (cd cur)); [inversion Hl; subst; exact Hd|].
+    eapply IH; [| |exact Hl]; [apply beam_nbrs_inv; auto | apply beam_nbrs_cd; auto].
+  Qed.
+
+  Lemma beam_init_inv : forall e, binv (beam_init ef e).
+  Proof.
+    intros e. unfold beam_init.
     destruct (add_result_spec ef e [] (heap_ok_nil le_max)) as (A1 & A2 & A3 & _).
     constructor; cbn [b_res b_cands b_vis].
     - exact A1.
     - apply A3. cbn. constructor; [intros []|constructor].
     - intros x Hx. destruct (A2 x Hx) as [->|[]]. left; auto.
-    - intros x Hx. destruct (A2 x Hx) as [->|[]]. auto.
     - intros x Hx.
       assert (In x [e]) by (eapply Permutation_in; [symmetry; apply push_perm | exact Hx]).
       destruct H as [<-|[]]. left; auto.
+  Qed.
+
+  (* with ef >= 1 the results heap is never empty once the entry is in it *)
+  Lemma beam_nbrs_nonempty : forall nbrs c, binv c -> 0 < ef -> b_res c <> [] ->
+    b_res (beam_nbrs nbrs cdf ef c) <> [].
+  Proof.
+    induction nbrs as [|n t IH]; intros c Hc Hef Hne; cbn [beam_nbrs]; auto.
+    destruct (mem n (b_vis c)) eqn:Hm; auto.
+    pose proof (beam_nbrs_inv [n] c Hc) as Hstep. cbn [beam_nbrs] in Hstep. rewrite Hm in Hstep.
+    destruct (dlt (cdf n) (worst (b_res c)) || (Z.of_nat (length (b_res c)) <? ef)).
+    - apply IH; auto. cbn [b_res].
+      destruct (add_result_spec ef (C n (cdf n)) (b_res c) (bi_heap _ Hc)) as (_ & _ & _ & _ & A5 & _). auto.
+    - apply IH; auto.
+  Qed.
+
+  Lemma beam_loop_nonempty : forall fuel c c', binv c -> 0 < ef -> b_res c <> [] ->
+    beam_loop fuel gn cdf ef c = Some c' -> b_res c' <> [].
+  Proof.
+    induction fuel as [|f IH]; intros c c' Hc Hef Hne Hl; cbn [beam_loop] in Hl; [discriminate|].
+    destruct (pop le_min (b_cands c)) as [[cur rest]|] eqn:Ep; [|inversion Hl; subst; auto].
+    assert (Hrest : binv (B rest (b_res c) (b_vis c))).
+    { destruct Hc as [H1 H2 H3 H5].
+      destruct (pop_spec le_min le_min_total le_min_trans _ _ _ Ep) as (P & _ & _).
+      constructor; cbn [b_res b_cands b_vis]; auto.
+      intros x Hx. apply H5. eapply Permutation_in; [symmetry; exact P | right; exact Hx]. }
+    destruct (dlt (worst (b_res c)) (cd cur)); [inversion Hl; subst; exact Hne|].
+    eapply IH; [| | |exact Hl]; auto.
+    - apply beam_nbrs_inv; auto.
+    - apply beam_nbrs_nonempty; auto.
+  Qed.
+
+  Lemma beam_heap : forall fuel e rs, beam fuel gn cdf ef e = Some rs ->
+    rheap rs /\ NoDup (map cid rs) /\ (0 < ef -> rs <> []).
+  Proof.
+    intros fuel e rs Hb. unfold beam in Hb.
+    destruct (beam_loop fuel gn cdf ef (beam_init ef e)) as [c'|] eqn:El; [|discriminate].
+    cbn in Hb. inversion Hb; subst.
+    destruct (beam_loop_inv _ _ _ (beam_init_inv e) El) as [H1 H2 H3 H5].
+    split; [exact H1|]. split; [exact H2|].
+    intros Hef. eapply beam_loop_nonempty; [apply beam_init_inv | exact Hef | | exact El].
+    unfold beam_init. cbn [b_res].
+    destruct (add_result_spec ef e [] (heap_ok_nil le_max)) as (_ & _ & _ & _ & A5 & _). auto.
   Qed.
 
   (* the results heap that beam returns *)
@@ -154,7 +221,12 @@ Section Beam.
     intros fuel e rs He Hb. unfold beam in Hb.
     destruct (beam_loop fuel gn cdf ef (beam_init ef e)) as [c'|] eqn:El; [|discriminate].
     cbn in Hb. inversion Hb; subst.
-    destruct (beam_loop_inv _ _ _ (beam_init_inv e He) El) as [H1 H2 H3 H4 H5]. auto.
+    destruct (beam_loop_inv _ _ _ (beam_init_inv e) El) as [H1 H2 H3 H5].
+    split; [exact H1|]. split; [exact H2|].
+    eapply beam_loop_cd; [apply beam_init_inv | | exact El].
+    unfold beam_init. intros x Hx. cbn [b_res] in Hx.
+    destruct (add_result_spec ef e [] (heap_ok_nil le_max)) as (_ & A2 & _).
+    destruct (A2 x Hx) as [->|[]]. exact He.
   Qed.
 End Beam.
 
